@@ -141,4 +141,18 @@ fn reach() {
     kani::cover!(r.is_err() && tr_calls() == 0);
     kani::cover!(r.is_err() && tr_calls() == 1);
     core::mem::forget(wk);
+}/// Clone: a clone is the same combinator over the same parts — `apply_transform_new_service` holds of it verbatim   [C11]
+#[kani::proof]
+fn apply_transform_new_service_on_clone() {
+    let orig = apply(OTr, LeafFactory { id: S });
+    let fac = orig.clone();          // everything below is asked of the CLONE
+    let cfg: u8 = kani::any();
+    let f = fac.new_service(cfg);
+    assert!(new_calls(S) == 1 && new_cfg(S) == cfg && fact_polls(S) == 0 && tr_calls() == 0);
+    match &f.state {
+        ApplyTransformFutureState::A { fut } => assert!(fut.id == S && !fut.done),
+        ApplyTransformFutureState::B { .. } => kani::assert(false, "new_service must start in state A"),
+    }
 }
+
+
